@@ -434,6 +434,24 @@ theorem removeByIdx_partial (l : List α) (tab : List Int) :
       · rw [List.pairwise_reverse]; exact hsorted.imp (by intro a b h; exact h)
       · intro hk'; simpa using h3 hk'
 
+/-- `removeObsList(tab)`, ANY list of integers, returning or raising: what is left is a SUB-SEQUENCE of the source (the
+observations left keep their order, none is duplicated or invented); when the call returns `n`, exactly `n`
+observations are gone and `n` is 0 (refused) or `len(tab)` -/
+theorem removeByIdx_sublist_any (l : List α) (tab : List Int) :
+    (removeByIdx l tab).1.Sublist l ∧
+    ∀ n, (removeByIdx l tab).2 = some n →
+      (removeByIdx l tab).1.length + n = l.length ∧ (n = 0 ∨ n = tab.length) := by
+  rcases removeByIdx_partial l tab with h | ⟨d, k, l', hperm, _, hk, _, hsub, hlen, h1, h2, h3, _⟩
+  · rw [h]; exact ⟨List.Sublist.refl l, fun n hn => by cases hn; exact ⟨rfl, Or.inl rfl⟩⟩
+  · rw [h1]
+    refine ⟨hsub, fun n hn => ?_⟩
+    have hkd : k = d.length := by
+      rcases Nat.lt_or_ge k d.length with hlt | hge
+      · rw [h2.mpr hlt] at hn; cases hn
+      · omega
+    rw [h3 hkd] at hn; cases hn
+    exact ⟨hlen, Or.inr (by rw [hkd]; exact hperm.length_eq)⟩
+
 /-- `extractSpanTime(track)` with an EMPTY other track raises `IndexError` (`track[0]`) -/
 theorem extractSpanTrack_empty (tr other : Track) (h : other.pts = []) : extractSpanTrack tr other = none := by
   simp [extractSpanTrack, h, pyGet]
